@@ -248,6 +248,7 @@ func (t *Dense) MaskFromDense(tts ...*Dense) {
 	if len(t.mask) < t.DataSize() {
 		t.makeMask()
 	}
+	defer t.viewMaskGuard()()
 
 	for i, tt := range tts {
 		if tt != nil {
